@@ -382,8 +382,38 @@ func freqRates(rng *rand.Rand, nrates int) []float64 {
 		p := 1000 + rng.Intn(1000000)
 		rates = append(rates, math.Round(1e9/float64(p)))
 	}
-	rates = append(rates, 999001, 998004, 253614, 1e9/1024, 1e6-1)
+	rates = append(rates, nearIntegerPeriods(24)...)
+	rates = append(rates, 1e9/1024, 1e6-1)
 	return append(rates, 1, 2, 3, 7, 1000000, 999999, 44100.5, 0.5, 1.0/3, 47999.99, 12345.678, 29.97, 59.94, 1e6+0.5, 44100.4, 2.6, 48000/1.001)
+}
+
+// nearIntegerPeriods: the k integer rates in 1..10^6 whose period 10^9/f is closest to, but not equal to, a whole
+// number of nanoseconds (where a shortcut through an integer period would silently lose the fraction).
+func nearIntegerPeriods(k int) []float64 {
+	type cand struct {
+		f float64
+		d float64
+	}
+	var best []cand
+	for f := 1; f <= 1000000; f++ {
+		if 1000000000%f == 0 {
+			continue
+		}
+		p := 1e9 / float64(f)
+		d := math.Abs(p - math.Round(p))
+		if len(best) < k || d < best[len(best)-1].d {
+			best = append(best, cand{float64(f), d})
+			sort.Slice(best, func(i, j int) bool { return best[i].d < best[j].d })
+			if len(best) > k {
+				best = best[:k]
+			}
+		}
+	}
+	out := make([]float64, len(best))
+	for i, c := range best {
+		out[i] = c.f
+	}
+	return out
 }
 
 func freqSweep(w *numWriter, rng *rand.Rand, rates []float64, ncounts int) {
